@@ -5,11 +5,14 @@ from pv import propkit as K, schema
 from pv.core import PropResult
 
 LEVEL = 'proof'
-EXPLANATION = ('K1: _find_error_in_list, _ifs (loop invariant: no earlier condition true), _iferror (abstract guarded '
-               'callable) proved for all arguments; K-S: IF is emitted as a parenthesised conditional expression whose '
-               'test / body / else are the three arguments (lazy by CPython IfExp semantics), default else False, IFERROR '
-               'guards its first argument under a lambda, IFS passes its arguments in order; nesting by L-SUBST; K4 nest '
-               'monitor as bounded stand-in.')
+EXPLANATION = ('K1: _find_error_in_list; _ifs over abstract 0-ary callables (loop invariant: no earlier condition true or an '
+               'error value): the value paired with the first true condition, #N/A when none is true, the first error-valued '
+               'condition is returned, and no exception although the value of a false condition may raise (laziness); _iferror: '
+               'the fallback exactly when the guarded callable raises or yields an error value, its value otherwise, and no '
+               'exception although an unneeded fallback may raise; K-S: IF is emitted as a parenthesised conditional expression '
+               'whose test / body / else are the three arguments (lazy by CPython IfExp semantics), default else False, IFERROR '
+               'and IFS pass every argument under its own lambda, in order; nesting by L-SUBST; K4 nest monitor as bounded '
+               'stand-in.')
 MOD = 'contracts.rt'
 K1 = ['_find_error_in_list', '_ifs', '_iferror']
 
@@ -28,17 +31,17 @@ TABLE = [
     ('IF.nested', '=IF(900001,IF(900002,900003,900004),900005)',
      '(900003 if 900002 else 900004) if 900001 else 900005', 'nesting keeps the pairing'),
     ('IF.in_comparison', '=IF(900001,900002,900003)>900004', "self._compare('>', 900002 if 900001 else 900003, 900004)", ''),
-    ('IFERROR.shape', '=IFERROR(900001,900002)', 'self._iferror(lambda: 900001, 900002)',
-     'the guarded argument is evaluated under a lambda inside _iferror'),
-    ('IFERROR.guards_subexpression', '=IFERROR(900001/900002,900003)', 'self._iferror(lambda: 900001 / 900002, 900003)', ''),
-    ('IFS.order', '=IFS(900001,900002,900003,900004)', 'self._ifs(self._flatten_list([900001, 900002, 900003, 900004]))',
-     'conditions and values reach _ifs in order as one flat list'),
+    ('IFERROR.shape', '=IFERROR(900001,900002)', 'self._iferror(lambda: 900001, lambda: 900002)',
+     'both arguments are evaluated under a lambda inside _iferror: the fallback only when it is needed'),
+    ('IFERROR.guards_subexpression', '=IFERROR(900001/900002,900003)', 'self._iferror(lambda: 900001 / 900002, lambda: 900003)', ''),
+    ('IFS.order', '=IFS(900001,900002,900003,900004)', 'self._ifs([lambda: 900001, lambda: 900002, lambda: 900003, lambda: 900004])',
+     'conditions and values reach _ifs in order, each under its own lambda'),
     ('IFS.three_pairs', '=IFS(900001,900002,900003,900004,900005,900006)',
-     'self._ifs(self._flatten_list([900001, 900002, 900003, 900004, 900005, 900006]))', ''),
+     'self._ifs([lambda: 900001, lambda: 900002, lambda: 900003, lambda: 900004, lambda: 900005, lambda: 900006])', ''),
 ]
 
 
-CONFORMANCE = {"_ifs": [{"flatten_list": [0, 1, 2, 3]}, {"flatten_list": [0, 1, 0, 3]}, {"flatten_list": ["#N/A", 1]}, {"flatten_list": []}, {"flatten_list": ["", 1, {"$e": 1}, 2, "x", 3]}], "_find_error_in_list": [{"flatten_list": [1, "#NULL!", "#REF!"]}, {"flatten_list": [1, 2]}, {"flatten_list": [" #NULL!"]}]}
+CONFORMANCE = {"_find_error_in_list": [{"flatten_list": [1, "#NULL!", "#REF!"]}, {"flatten_list": [1, 2]}, {"flatten_list": [" #NULL!"]}]}
 
 
 def run(ctx):
@@ -51,8 +54,9 @@ def run(ctx):
     res.trusted_base += ['L-SUBST: replacing a placeholder in a delimited position by an expression text yields the '
                          'schema tree with that expression substituted (CPython grammar)',
                          'CPython semantics of IfExp and lambda (only the chosen branch / the guarded body is evaluated)']
-    res.assumptions += ['A-STATIC', 'IFS and IFERROR evaluate all their arguments before the helper runs (the arguments are '
-                        'list elements / call arguments): laziness is claimed for IF only; see known findings C13-K1/K2']
+    res.assumptions += ['A-STATIC', 'the arguments of IFS and IFERROR are abstract 0-ary callables in the K1 contracts (call0 / raises0): '
+                        'a value whose condition is not the first true one, and a fallback that is not needed, may raise without '
+                        'effect - the contracts allow no exception in that case, which is the laziness claim']
     return res
 
 
